@@ -114,6 +114,16 @@ fn main() {
         sh: Arc::new(sh.clone()),
     }));
 
+    // An interactive shell must survive ctrl-C. While a line is being read
+    // the terminal is in raw mode and ctrl-C is a key, but between the
+    // moment the line is submitted (terminal back in cooked mode) and the
+    // moment the job owns the terminal -- and again after the job has
+    // ended -- the shell is the foreground process group and receives the
+    // SIGINT itself. Children restore the default action after fork.
+    unsafe {
+        libc::signal(libc::SIGINT, libc::SIG_IGN);
+    }
+
     let sig_handler_enabled = tools::is_signal_handler_enabled();
     if sig_handler_enabled {
         signals::setup_sigchld_handler();
